@@ -260,12 +260,12 @@ def _servermap_flow_graph(peers, shares, servermap):
     peer_to_index, index_to_peer = _reindex(peers, 1)
     share_to_index, index_to_share = _reindex(shares, len(peers) + 1)
     graph = []
-    indexedShares = []
     sink_num = len(peers) + len(shares) + 1
     graph.append([peer_to_index[peer] for peer in peers])
     #print("share_to_index %s" % share_to_index)
     #print("servermap %s" % servermap)
     for peer in peers:
+        indexedShares = []
         if peer in servermap:
             for s in servermap[peer]:
                 if s in share_to_index:
